@@ -7,6 +7,7 @@ import OptreeModel.Model.OrderSM
 import OptreeModel.Model.RegSM
 import OptreeModel.Model.Twins
 import OptreeModel.Model.Ravel
+import OptreeModel.Model.Dataclass
 import OptreeModel.Generated.Twins
 import OptreeModel.Generated.Hash
 
@@ -387,6 +388,15 @@ def evalOp (st : DriverState) : Sexp → Res Sexp
       let otherDt : Arr := { flat with dtype := if flat.dtype == 8 then 6 else 8 }
       pure (encOk [encArr flat, encR (unravel lib u flat), encR (unravel lib u longer),
                    (match unravel lib u otherDt with | .ok _ => .atom "accepted" | .error e => encErr e)])
+  | .list (.atom "dcpart" :: isClass :: already :: nsEmpty :: fields) => do
+      let decField : Sexp → Dec FieldSpec := fun x => match x with
+        | .list [.str n, i, p] => do let i ← decBool i; let p ← decBool p; pure ⟨n, i, p⟩
+        | _ => .error "field expected"
+      let c : DcCall := {
+        fields := (← Res.ofDec (decList decField fields)), alreadyDecorated := (← Res.ofDec (decBool already)),
+        nsEmpty := (← Res.ofDec (decBool nsEmpty)), isClass := (← Res.ofDec (decBool isClass)) }
+      let (ch, md) ← Res.ofExcept (dcPartition c)
+      pure (encOk [l (ch.map Sexp.str), l (md.map Sexp.str)])
   | .list (.atom "sorttwin" :: keys) => do
       let ks ← Res.ofDec (decList decKey keys)
       pure (encOk [encKeys (cxxSort Generated.sortRestores (fun l => l.reverse) (fun l => l) ks),
